@@ -129,9 +129,9 @@ Proof. exact model_meets_spec. Qed.
 Theorem pointer_without_segment_error_and_continue_legacy_refuted :
   spec_ok witness_drain (model_v legacy_drain witness_drain) = false
   /\ map b_resp (o_with (model_v legacy_drain witness_drain))
-     = [[[WExc exc_io_error]; [WExc ss_exc_no_method]]; [[WData 50 450 None]]]
+     = [[[WExc exc_io_error]; [WExc ss_exc_no_method]]; [[WData 50 50 450 None]]]
   /\ map b_resp (o_with (model_v legacy_drain witness_drain_empty)) = [[[WExc exc_io_error]]; []]
-  /\ map b_resp (o_with (model witness_drain)) = [[[WExc exc_io_error]]; [[WData 50 450 None]]].
+  /\ map b_resp (o_with (model witness_drain)) = [[[WExc exc_io_error]]; [[WData 50 50 450 None]]].
 Proof. exact legacy_drain_refuted_l. Qed.
 
 (* Before 29847dc an exchange INPUT sent as a pointer batch on a call that engaged no
@@ -140,10 +140,10 @@ Proof. exact legacy_drain_refuted_l. Qed.
 Theorem stream_input_pointer_without_segment_legacy_refuted :
   spec_ok witness_input (model_v legacy_input witness_input) = false
   /\ map b_resp (o_with (model_v legacy_input witness_input))
-     = [[[WData 50 450 None]]; [[WData 8 8 None; WData 2 16 None; WData 8 24 None]]; [[WData 50 450 None]]]
+     = [[[WData 50 50 450 None]]; [[WData 0 8 8 None; WData 0 2 16 None; WData 0 8 24 None]]; [[WData 50 50 450 None]]]
   /\ o_without (model_v legacy_input witness_input)
-     = [[[WData 50 450 None]]; [[WData 8 136 None; WData 2 16 None; WData 8 104 None]]; [[WData 50 450 None]]]
-  /\ map b_resp (o_with (model witness_input)) = [[[WData 50 450 None]]; [[WExc exc_io_error]]; [[WData 50 450 None]]].
+     = [[[WData 50 50 450 None]]; [[WData 0 8 136 None; WData 0 2 16 None; WData 0 8 104 None]]; [[WData 50 50 450 None]]]
+  /\ map b_resp (o_with (model witness_input)) = [[[WData 50 50 450 None]]; [[WExc exc_io_error]]; [[WData 50 50 450 None]]].
 Proof. exact legacy_input_refuted_l. Qed.
 
 (* non-vacuity: a history in which the request and an input travel as pointers, another
@@ -153,9 +153,9 @@ Example premises_satisfiable :
   let o := model example_input in
   map b_req_ptr (o_with o) = [true; true; false]
   /\ map b_items_ptr (o_with o) = [[]; [true; false]; []]
-  /\ map b_resp (o_with o) = [[[WData 100 300 (Some (65536, 400))]];
-                              [[WData 8 136 (Some (65936, 344)); WData 8 64 (Some (66280, 344))]];
-                              [[WData 50 450 None]]]
+  /\ map b_resp (o_with o) = [[[WData 50 100 300 (Some (65536, 400))]];
+                              [[WData 0 8 136 (Some (65936, 344)); WData 0 8 64 (Some (66280, 344))]];
+                              [[WData 50 50 450 None]]]
   /\ o_after o = []
   /\ forallb (fun ob => negb (snd ob)) (fst (run current (cfg_of example_input) init (i_calls example_input))) = true.
 Proof. exact example_facts. Qed.
